@@ -700,6 +700,7 @@ def samplingW? (s : String) : Option (Option (Nat × Rat)) :=
   `c17.prog px pxUm lt T C M K op…`                errors per op and the final group
   `c17.refine T C M K`                             scan lines of each centroid-refined track
   `c17.titles unit sampling hasMd`                 the column titles `export_kymotrackgroup_to_csv` writes
+  `c17.exportfile px pxUm lt unit sampling img T C M K`     version, titles and cells of the written file
   `c17.fileroundtrip px pxUm lt unit sampling img T C M K`  save + import through titles and cells
   `c17.readfile px pxUm lt version titles rows`    import of a file given as version / titles / cells
   `c17.centroid h eps img T C M K`                 lines and coordinates after centroid refinement without bias correction
@@ -753,6 +754,17 @@ def handle : List String → Option String
   | ["c17.titles", unit, smp, hasMd] => do
     let u ← unit? unit; let sw ← samplingW? smp; let b ← bool? hasMd
     some ("|".intercalate ((exportTitles u (sw.map (·.1)) b).map showTitle))
+  | ["c17.exportfile", px, pxUm, lt, unit, smp, img, t, c, m, k] => do
+    let ky ← kymo? px pxUm lt
+    let u ← unit? unit
+    let img ← intListList? img
+    let sw ← samplingW? smp
+    let off : Rat := (sw.map (·.2)).getD 0
+    let g ← group? t c m k
+    match exportFile ky u (sw.map (·.1)) (fun w => sumSignal img w off) fmt6e g with
+    | .error e => some e.name
+    | .ok f => some (showOptInt' (f.version.map Int.ofNat) ++ " " ++ "|".intercalate (f.titles.map showTitle) ++ " " ++
+        showListList showRat f.rows)
   | ["c17.fileroundtrip", px, pxUm, lt, unit, smp, img, t, c, m, k] => do
     let ky ← kymo? px pxUm lt
     let u ← unit? unit
